@@ -513,6 +513,16 @@ func GenConfig(r *common.Rand, k Knobs) *Config {
 				fd := &FieldDef{Name: g.fname("o"), Type: wrap(targetFor(s, false))}
 				t.def.Fields = append(t.def.Fields, fd)
 				t.owner[fd.Name] = []int{s}
+				// an object field resolvable by two subgraphs (@shareable): only towards types
+				// every subgraph can declare (entities, value types)
+				if tt := g.obj(fd.Type.Base()); k["shareable"] && len(t.subs) >= 2 && tt != nil && tt.cat != catLocal && r.Chance(1, 5) {
+					for _, s2 := range t.subs {
+						if s2 != s {
+							t.owner[fd.Name] = append(t.owner[fd.Name], s2)
+							break
+						}
+					}
+				}
 			case catLocal:
 				fd := &FieldDef{Name: g.fname("o"), Type: wrap(targetFor(t.home, false))}
 				t.def.Fields = append(t.def.Fields, fd)
@@ -628,8 +638,8 @@ func GenConfig(r *common.Rand, k Knobs) *Config {
 				continue
 			}
 			for _, fd := range t.def.Fields {
-				if ow := t.owner[fd.Name]; len(ow) == 1 {
-					sites = append(sites, site{t, fd, ow[0]})
+				if ow := t.owner[fd.Name]; len(ow) >= 1 {
+					sites = append(sites, site{t, fd, ow[r.Pick(len(ow))]})
 				}
 			}
 		}
